@@ -7,6 +7,8 @@ package main
 import (
 	"bytes"
 	"fmt"
+	"github.com/dominant-strategies/go-quai/core/rawdb"
+	"github.com/dominant-strategies/go-quai/log"
 	"math/big"
 
 	"verifharness/internal/h"
@@ -206,4 +208,179 @@ func codecTermini(o *h.Out, rc *h.Rng, ans func(string)) {
 		o.Violate("c14-reencode-differs:termini", "re-encoding the decoded termini gives other bytes")
 	}
 	o.Count("termini-roundtrip")
+}
+
+// codecReceipts: a block's receipts in their storage form (status, cumulative / used gas, tx hash, contract address,
+// logs with topics and data, outbound ETXs) through ReceiptsForStorage proto and through rawdb Write / ReadRawReceipts:
+// every stored field comes back, the bloom is recomputed from the logs, re-encoding gives the same bytes.
+func codecReceipts(o *h.Out, rc *h.Rng, ans func(string)) {
+	o.Op("note")
+	ans("ok")
+	loc := common.Location{0, 0}
+	var rs types.Receipts
+	cum := uint64(0)
+	for i, n := 0, rc.Intn(5); i < n; i++ {
+		used := 21000 + uint64(rc.Intn(1_000_000))
+		cum += used
+		r := &types.Receipt{Status: uint64(rc.Intn(2)), CumulativeGasUsed: cum, GasUsed: used, TxHash: cHash(rc)}
+		if rc.Chance(40) {
+			r.ContractAddress = cAddr(rc, loc)
+		}
+		for j, m := 0, rc.Intn(4); j < m; j++ {
+			lg := &types.Log{Address: cAddr(rc, loc), Data: rc.Bytes(rc.Intn(70))}
+			for t, k := 0, rc.Intn(5); t < k; t++ {
+				lg.Topics = append(lg.Topics, cHash(rc))
+			}
+			r.Logs = append(r.Logs, lg)
+		}
+		for j, m := 0, rc.Intn(4); j < m; j++ {
+			p := genTxParams(rc)
+			p.kind, p.loc = 1, loc
+			if p.to == nil {
+				a := cAddr(rc, loc)
+				p.to = &a
+			}
+			r.OutboundEtxs = append(r.OutboundEtxs, p.build())
+		}
+		r.Bloom = types.CreateBloom(types.Receipts{r})
+		rs = append(rs, r)
+	}
+	same := func(where string, got types.Receipts) {
+		if len(got) != len(rs) {
+			o.Violate("c14-roundtrip-changes-object:receipts", fmt.Sprintf("%s: %d receipts stored, %d read", where, len(rs), len(got)))
+			return
+		}
+		for i, a := range rs {
+			b := got[i]
+			switch {
+			case a.Status != b.Status || a.CumulativeGasUsed != b.CumulativeGasUsed || a.GasUsed != b.GasUsed || a.TxHash != b.TxHash:
+				o.Violate("c14-roundtrip-changes-object:receipts", fmt.Sprintf("%s: receipt %d: status / gas / tx hash differ (%d %d %d %x vs %d %d %d %x)", where, i, a.Status, a.CumulativeGasUsed, a.GasUsed, a.TxHash[:4], b.Status, b.CumulativeGasUsed, b.GasUsed, b.TxHash[:4]))
+			case !bytes.Equal(a.ContractAddress.Bytes(), b.ContractAddress.Bytes()):
+				o.Violate("c14-roundtrip-changes-object:receipts", fmt.Sprintf("%s: receipt %d: contract address %x vs %x", where, i, a.ContractAddress.Bytes(), b.ContractAddress.Bytes()))
+			case a.Bloom != b.Bloom:
+				o.Violate("c14-roundtrip-changes-object:receipts", fmt.Sprintf("%s: receipt %d: the bloom filter differs", where, i))
+			case len(a.Logs) != len(b.Logs) || len(a.OutboundEtxs) != len(b.OutboundEtxs):
+				o.Violate("c14-roundtrip-changes-object:receipts", fmt.Sprintf("%s: receipt %d: %d logs %d ETXs stored, %d / %d read", where, i, len(a.Logs), len(a.OutboundEtxs), len(b.Logs), len(b.OutboundEtxs)))
+			default:
+				for j := range a.Logs {
+					x, y := a.Logs[j], b.Logs[j]
+					ok := bytes.Equal(x.Address.Bytes(), y.Address.Bytes()) && bytes.Equal(x.Data, y.Data) && len(x.Topics) == len(y.Topics)
+					for t := 0; ok && t < len(x.Topics); t++ {
+						ok = x.Topics[t] == y.Topics[t]
+					}
+					if !ok {
+						o.Violate("c14-roundtrip-changes-object:receipts", fmt.Sprintf("%s: receipt %d log %d differs (address / topics / data)", where, i, j))
+					}
+				}
+				for j := range a.OutboundEtxs {
+					if a.OutboundEtxs[j].Hash() != b.OutboundEtxs[j].Hash() {
+						o.Violate("c14-roundtrip-changes-object:receipts", fmt.Sprintf("%s: receipt %d outbound ETX %d has another hash", where, i, j))
+					}
+				}
+			}
+		}
+	}
+	store := make(types.ReceiptsForStorage, len(rs))
+	for i, r := range rs {
+		store[i] = (*types.ReceiptForStorage)(r)
+	}
+	pb, err := store.ProtoEncode()
+	if err != nil {
+		o.Count("receipts-encode-err")
+		return
+	}
+	data, _ := proto.Marshal(pb)
+	fresh := new(types.ProtoReceiptsForStorage)
+	if err := proto.Unmarshal(data, fresh); err != nil {
+		o.Violate("c14-unmarshal-own-bytes:receipts", err.Error())
+		return
+	}
+	back := new(types.ReceiptsForStorage)
+	if err := back.ProtoDecode(fresh, loc); err != nil {
+		o.Violate("c14-decode-own-encoding:receipts", err.Error())
+		return
+	}
+	got := make(types.Receipts, len(*back))
+	for i, r := range *back {
+		got[i] = (*types.Receipt)(r)
+	}
+	same("proto", got)
+	if pb2, err := back.ProtoEncode(); err == nil {
+		if data2, _ := proto.Marshal(pb2); !bytes.Equal(data, data2) {
+			o.Violate("c14-reencode-differs:receipts", "re-encoding the decoded receipts gives other bytes")
+		}
+	}
+	db := rawdb.NewMemoryDatabase(log.Global)
+	bh, num := cHash(rc), uint64(rc.Intn(1000))
+	rawdb.WriteReceipts(db, bh, num, rs)
+	if len(rs) > 0 {
+		same("rawdb", rawdb.ReadRawReceipts(db, bh, num))
+	}
+	o.Count("receipts-roundtrip")
+}
+
+// codecRollup: the roll-up of pending ETXs a region hands to prime, through proto and rawdb
+func codecRollup(o *h.Out, rc *h.Rng, ans func(string)) {
+	o.Op("note")
+	ans("ok")
+	loc := common.Location{byte(rc.Intn(2)), byte(rc.Intn(2))}
+	etxs := types.Transactions{}
+	for i, n := 0, rc.Intn(6); i < n; i++ {
+		p := genTxParams(rc)
+		p.kind, p.loc = 1, loc
+		if p.to == nil {
+			a := cAddr(rc, loc)
+			p.to = &a
+		}
+		etxs = append(etxs, p.build())
+	}
+	hd := types.EmptyHeader()
+	fuzzSetters(rc, hd, loc)
+	body := types.EmptyWorkObjectBody()
+	body.SetHeader(hd)
+	wh := codecGenWoHeader(rc, loc)
+	wh.SetHeaderHash(hd.Hash())
+	wo := types.NewWorkObject(wh, body, nil)
+	ru := types.PendingEtxsRollup{Header: wo.ConvertToPEtxView(), EtxsRollup: etxs}
+	pb, err := ru.ProtoEncode()
+	if err != nil {
+		o.Count("rollup-encode-err")
+		return
+	}
+	data, _ := proto.Marshal(pb)
+	fresh := new(types.ProtoPendingEtxsRollup)
+	if err := proto.Unmarshal(data, fresh); err != nil {
+		o.Violate("c14-unmarshal-own-bytes:rollup", err.Error())
+		return
+	}
+	ru2 := new(types.PendingEtxsRollup)
+	if err := ru2.ProtoDecode(fresh, loc); err != nil {
+		o.Violate("c14-decode-own-encoding:rollup", err.Error())
+		return
+	}
+	cmp := func(where string, x *types.PendingEtxsRollup) {
+		if x == nil || x.Header == nil {
+			o.Violate("c14-roundtrip-changes-object:rollup", where+": the roll-up does not come back")
+			return
+		}
+		if len(x.EtxsRollup) != len(etxs) || x.Header.Hash() != ru.Header.Hash() {
+			o.Violate("c14-roundtrip-changes-object:rollup", fmt.Sprintf("%s: header hash or ETX count changes (%d stored, %d read)", where, len(etxs), len(x.EtxsRollup)))
+			return
+		}
+		for i := range etxs {
+			if etxs[i].Hash() != x.EtxsRollup[i].Hash() {
+				o.Violate("c14-roundtrip-changes-object:rollup", fmt.Sprintf("%s: ETX %d has another hash after the round trip", where, i))
+			}
+		}
+	}
+	cmp("proto", ru2)
+	if pb2, err := ru2.ProtoEncode(); err == nil {
+		if data2, _ := proto.Marshal(pb2); !bytes.Equal(data, data2) {
+			o.Violate("c14-reencode-differs:rollup", "re-encoding the decoded roll-up gives other bytes")
+		}
+	}
+	db := rawdb.NewMemoryDatabase(log.Global)
+	rawdb.WritePendingEtxsRollup(db, ru)
+	cmp("rawdb", rawdb.ReadPendingEtxsRollup(db, ru.Header.Hash()))
+	o.Count("rollup-roundtrip")
 }
